@@ -228,6 +228,22 @@ func runPairing(p *Program, r *RuleResult) {
 				if w.kind != rd.kind || w.side != opp[rd.side] {
 					continue
 				}
+				// the slot the reader installs as its own provider must be the writer's own
+				// provider: the reader takes over the writer's place
+				if ps := providersSlot(rd.clo, rd.clo.Params[0]); ps != "" {
+					nChecked++
+					construct := fmt.Sprintf("%s:%s.%s:%s-provider-handed-over-to-%s", family, w.kind, ps, w.form, rd.form)
+					if wf, has := wslots[w][ps]; has && wf == "<self>" {
+						r.add(fnName(rd.fn), construct, Holds, rd.pos, "the reader continues under the writer's own provider")
+					} else {
+						what := "nothing"
+						if has {
+							what = w.form + "." + wf
+						}
+						r.add(fnName(rd.fn), construct, Violated, rd.pos,
+							fmt.Sprintf("the reader of %s makes slot %s its provider, but the writer (%s) puts %s there instead of its own provider: the reader continues on a channel it is a client of, and the writer's clients are left without a provider", w.kind, ps, w.form, what))
+					}
+				}
 				var slots []string
 				for s := range wslots[w] {
 					slots = append(slots, s)
